@@ -599,6 +599,8 @@ class Interp(object):
         for op, rhs in zip(e.ops, e.comparators):
             right = self.eval(rhs, fr)
             r = compare(self, CMP[type(op)], left, right)
+            if isinstance(r, SObj) and len(e.ops) == 1:
+                return r          # an element-wise comparison of a library-type stub: a mask object
             if isinstance(r, (SObj,)) or (isinstance(r, Sym) and not isinstance(r, SBool)):
                 raise Unsupported('non-bool comparison result')
             if len(e.ops) == 1:
